@@ -51,8 +51,8 @@ func runC14(c *kit.Ctx) {
 	}
 	closeName := kit.M("", "*scanner", "Close")
 	isEOF := func(v ssa.Value) bool { return v != nil && isGlobalLoad(kit.Strip(v), eofG) }
-	closedFalseAt := func(b *ssa.BasicBlock) bool {
-		for _, f := range kit.FactsAt(b) {
+	closedFalseIn := func(facts []kit.Fact) bool {
+		for _, f := range facts {
 			if !f.Pol && isLoadOfField(f.Cond, closedF) {
 				return true
 			}
@@ -60,6 +60,46 @@ func runC14(c *kit.Ctx) {
 				if u, ok := f.Cond.(*ssa.UnOp); ok && u.Op == token.NOT && isLoadOfField(u.X, closedF) {
 					return true
 				}
+			}
+		}
+		return false
+	}
+	closedFalseAt := func(b *ssa.BasicBlock) bool { return closedFalseIn(kit.FactsAt(b)) }
+	// resultsFact: the fact states that the buffer of fetched rows is empty / not empty
+	resultsF := p.Field("", "scanner", "results")
+	resultsLen := func(v ssa.Value) bool {
+		l := kit.LenOf(kit.Strip(v))
+		return l != nil && resultsF != nil && isLoadOfField(l, resultsF)
+	}
+	resultsFact := func(f kit.Fact) (empty, ok bool) {
+		cmp, isCmp := kit.CanonCmp(f.Cond, f.Pol)
+		if !isCmp || cmp.Bytes {
+			return false, false
+		}
+		x, y, op := cmp.X, cmp.Y, cmp.Op
+		if !resultsLen(x) {
+			x, y = y, x
+			op = map[token.Token]token.Token{token.LSS: token.GTR, token.GTR: token.LSS, token.LEQ: token.GEQ, token.GEQ: token.LEQ, token.EQL: token.EQL, token.NEQ: token.NEQ}[op]
+		}
+		if !resultsLen(x) {
+			return false, false
+		}
+		k, isK := kit.ConstInt(y)
+		if !isK {
+			return false, false
+		}
+		switch {
+		case (op == token.EQL || op == token.LEQ) && k == 0, op == token.LSS && k == 1:
+			return true, true
+		case (op == token.NEQ || op == token.GTR) && k == 0, op == token.GEQ && k == 1:
+			return false, true
+		}
+		return false, false
+	}
+	resultsEmptyIn := func(facts []kit.Fact, want bool) bool {
+		for _, f := range facts {
+			if e, ok := resultsFact(f); ok && e == want {
+				return true
 			}
 		}
 		return false
@@ -236,7 +276,7 @@ func runC14(c *kit.Ctx) {
 	}
 
 	// ---- R4 ---------------------------------------------------------------
-	c.StartRule("R4", "errors are reported only while the scanner is open", 4)
+	c.StartRule("R4", "errors are reported only while the scanner is open (or holds unreported rows, which are dropped); io.EOF only when nothing is buffered", 6)
 	kit.Instrs(next, func(in ssa.Instruction) {
 		r, ok := in.(*ssa.Return)
 		if !ok {
@@ -252,8 +292,34 @@ func runC14(c *kit.Ctx) {
 				return
 			}
 		}
-		c.Check(closedFalseAt(r.Block()), next, "error-while-open", r.Pos(), "returned only on the edge where the scanner is not closed", "Next can report this error although the scanner is already closed: a cancelled or failed scanner reports the error on every call instead of once followed by io.EOF")
+		good, why := closedFalseAt(r.Block()), "returned only on the edge where the scanner is not closed"
+		if !good {
+			// or: on every way here the scanner is open or still holds fetched rows (nothing was reported yet), and
+			// those rows are dropped before the error is returned, so that the next call answers io.EOF
+			dropped := false
+			kit.Instrs(next, func(x ssa.Instruction) {
+				if st, ok := x.(*ssa.Store); ok {
+					if fa, ok := st.Addr.(*ssa.FieldAddr); ok && kit.FieldVar(fa.X.Type(), fa.Field) == resultsF && kit.IsNilConst(kit.Root(st.Val)) && kit.Dominates(st, r) {
+						dropped = true
+					}
+				}
+			})
+			if dropped && kit.OnAllWays(r.Block(), func(facts []kit.Fact) bool { return closedFalseIn(facts) || resultsEmptyIn(facts, false) }, 0) {
+				good, why = true, "returned only where the scanner is open or still holds fetched rows, which are dropped first: the next call answers io.EOF"
+			}
+		}
+		c.Check(good, next, "error-while-open", r.Pos(), why, "Next can report this error although the scanner is already closed and has nothing buffered: a cancelled or failed scanner reports the error on every call instead of once followed by io.EOF")
 	})
+	// end-of-scan is never answered over rows that were fetched and not yet handed out
+	for _, fn := range []*ssa.Function{next, peek} {
+		kit.Instrs(fn, func(in ssa.Instruction) {
+			r, ok := in.(*ssa.Return)
+			if !ok || !isEOF(returnedError(r)) {
+				return
+			}
+			c.Check(resultsEmptyIn(kit.FactsAt(r.Block()), true), fn, "eof-only-when-drained", r.Pos(), "io.EOF is answered only where the buffer of fetched rows is known to be empty", "io.EOF can be answered while fetched rows are still buffered (the scanner closes itself when the last response arrives): the scan ends cleanly although rows are missing, the caller cannot tell")
+		})
+	}
 	kit.Instrs(peek, func(in ssa.Instruction) {
 		r, ok := in.(*ssa.Return)
 		if !ok {
